@@ -175,7 +175,7 @@ def check(case, ctx):
             ctx.le("normalised object: p.product(obj) = p q", np.abs(pr - pq).max(), TOL_PROD, {"got": pr, "ref": pq}, route=r)
             ctx.le("normalised object: rotate(v) = R v", np.linalg.norm(rot - Rq @ v) / nv, TOL_ROT, route=r)
     # the same quaternions / vectors written as lists, tuples or integer arrays (exactly representable cases only)
-    if forms.integral(q) or forms.integral(p) or forms.integral(v):
+    if True:
         from ahrs.common.dcm import DCM
         Q_, QA_ = ahrs.Quaternion, ahrs.QuaternionArray
         vi = np.round(v / np.abs(v).max() * 3.0) if not forms.integral(v) else v
@@ -200,5 +200,6 @@ def check(case, ctx):
                 ("DCM.from_quaternion[batch]", lambda a: DCM().from_quaternion(a), [np.array([q, p, -q])]),
                 ("q2R.v1", lambda a: o.q2R(a), [q]), ("q2R.v2", lambda a: o.q2R(a, version=2), [q]),
                 ("q2R.v1[batch]", lambda a: o.q2R(a), [np.array([q, p, -q])])):
-            forms.invariant(ctx, route, fn, args)
+            forms.invariant(ctx, route, fn, args, objects=True, lists=bool(forms.integral(q) or forms.integral(p)),
+                            clause="the same values in another argument form (list / tuple / integer / Quaternion object) give the same result")
     ctx.le("reference self-check: scalar part of q v q* is 0", abs(qvq[0]) / nv, 1e-14, route="Quaternion.rotate(3,)")
